@@ -1,6 +1,7 @@
 package server
 
 import (
+	"github.com/tidwall/tile38/internal/field"
 	"github.com/tidwall/tile38/internal/glob"
 )
 
@@ -82,7 +83,7 @@ func VH_C12_count_equals_ids() {
 
 // VH_C12_match_consumers: names and pattern symbolic; every consumer of the range shortcut against a plain
 // filter by glob.Match.
-//verif:cfg quick.b_pattern_bytes=0..2 thorough.b_pattern_bytes=0..3 quick.b_names=3_x_1_symbolic_byte thorough.b_names=3_x_1..2_symbolic_bytes maxwall=3000 b_consumers=SCAN_MATCH,SCAN_DESC_MATCH,KEYS,PDEL,CHANS,PDELCHAN ignorego=1
+//verif:cfg quick.b_pattern_bytes=0..2 thorough.b_pattern_bytes=0..3 quick.b_names=3_x_1_symbolic_byte thorough.b_names=3_x_1..2_symbolic_bytes maxwall=3000 b_consumers=SCAN_MATCH,SCAN_DESC_MATCH,KEYS,PDEL,CHANS,PDELCHAN,HOOKS,PDELHOOK ignorego=1
 func VH_C12_match_consumers() {
 	s := vhServer()
 	np := 2
@@ -98,7 +99,7 @@ func VH_C12_match_consumers() {
 	}
 	vassume(names[0] != "" && names[1] != "" && names[2] != "")
 	vassume(names[0] != names[1] && names[0] != names[2] && names[1] != names[2])
-	consumer := vchoose(6)
+	consumer := vchoose(8)
 	want := 0
 	var wantm [3]bool
 	for i, n := range names {
@@ -165,13 +166,32 @@ func VH_C12_match_consumers() {
 		if err == nil {
 			got = len(r.Array())
 		}
-	default: // PDELCHAN pat
+	case 5: // PDELCHAN pat
 		for _, n := range names {
 			vhDo(s, "SETCHAN", n, "WITHIN", "k", "FENCE", "BOUNDS", "0", "0", "1", "1")
 		}
 		r, _, err := vhDo(s, "PDELCHAN", pat)
 		if err == nil {
 			got = r.Integer()
+		}
+	case 6: // HOOKS pat
+		for _, n := range names {
+			_, _, err := vhDo(s, "SETHOOK", n, "http://h/", "WITHIN", "k", "FENCE", "BOUNDS", "0", "0", "1", "1")
+			vassert("C12.K1.sethook_ok", err == nil)
+		}
+		r, _, err := vhDo(s, "HOOKS", pat)
+		if err == nil {
+			got = len(r.Array())
+		}
+	default: // PDELHOOK pat
+		for _, n := range names {
+			vhDo(s, "SETHOOK", n, "http://h/", "WITHIN", "k", "FENCE", "BOUNDS", "0", "0", "1", "1")
+		}
+		r, _, err := vhDo(s, "PDELHOOK", pat)
+		if err == nil {
+			got = r.Integer()
+			left, _, _ := vhDo(s, "HOOKS", "*")
+			vassert("C12.K1.pdelhook_deletes_every_match", len(left.Array()) == 3-want)
 		}
 	}
 	vobs("consumer", consumer, pat, names[0], names[1], names[2], want, got)
@@ -191,4 +211,164 @@ func vhPrefixEndsFF(p string) bool {
 		n++
 	}
 	return n > 0 && p[n-1] == 0xFF
+}
+
+// ---- WHERE / WHEREIN against the documented value order -------------------------------------------------------
+//   kinds: Null < False < Number < String < True < JSON; numbers numerically, strings by lower-cased bytes,
+//   other kinds by data; a missing field reads as the number 0.
+
+func vhLowerLessS(a, b string) bool {
+	n := len(a)
+	if len(b) < n {
+		n = len(b)
+	}
+	for i := 0; i < n; i++ {
+		x, y := a[i], b[i]
+		if x >= 'A' && x <= 'Z' {
+			x += 32
+		}
+		if y >= 'A' && y <= 'Z' {
+			y += 32
+		}
+		if x != y {
+			return x < y
+		}
+	}
+	return len(a) < len(b)
+}
+
+func vhSpecLessV(a, b field.Value) bool {
+	if a.Kind() != b.Kind() {
+		return a.Kind() < b.Kind()
+	}
+	switch a.Kind() {
+	case field.Number:
+		return a.Num() < b.Num()
+	case field.String:
+		return vhLowerLessS(a.Data(), b.Data())
+	}
+	return a.Data() < b.Data()
+}
+
+func vhSpecEq(a, b field.Value) bool { return !vhSpecLessV(a, b) && !vhSpecLessV(b, a) }
+
+// the objects of the WHERE dataset: id -> text given to FIELD f ("" = the object has no field f)
+var vhWhereObjs = [][2]string{
+	{"a_missing", ""}, {"b_neg", "-1"}, {"c_half", "0.5"}, {"d_one", "1"}, {"e_str", "abc"}, {"f_STR", "ABD"},
+	{"g_true", "true"}, {"h_false", "false"}, {"i_null", "null"}, {"j_json", `{"a":1}`}, {"k_numstr", `"1"`},
+}
+
+// bounds / operands a WHERE clause may carry
+var vhWhereArgs = []string{"-1", "0", "0.5", "1", "2", "-inf", "inf", "abc", "abd", "true", "false", "null", `{"a":1}`}
+
+func vhWhereValue(text string) field.Value {
+	if text == "" {
+		return field.ValueOf("0")
+	}
+	return field.ValueOf(text)
+}
+
+//verif:cfg b_dataset=11_objects(field_missing|negative|fraction|1|two_strings_differing_in_case|true|false|null|JSON|quoted_number) b_where=range_form(min,max_from_13_operands,each_inclusive_or_exclusive)|operator_form(<,<=,>,>=,==,!=_x_13_operands)|WHEREIN(2_of_13_operands) b_queries=SCAN|SEARCH(strings)|WITHIN ignorego=1
+func VH_C12_where() {
+	s := vhServer()
+	q := vchoose(3)
+	for i, o := range vhWhereObjs {
+		args := []string{"SET", "k", o[0]}
+		if o[1] != "" {
+			args = append(args, "FIELD", "f", o[1])
+		}
+		if q == 1 {
+			args = append(args, "STRING", "v"+vhDigits[i])
+		} else {
+			args = append(args, "POINT", vhDigits[i], vhDigits[i])
+		}
+		_, _, err := vhDo(s, args...)
+		vassert("C12.K2.where_dataset", err == nil)
+	}
+	var filter []string
+	var want func(v field.Value) bool
+	form := vchoose(3)
+	a := vhWhereArgs[vchoose(len(vhWhereArgs))]
+	b := vhWhereArgs[vchoose(len(vhWhereArgs))]
+	switch form {
+	case 0: // WHERE f min max, each bound inclusive or exclusive
+		minx, maxx := vnondetBool(), vnondetBool()
+		smin, smax := a, b
+		if minx {
+			smin = "(" + smin
+		}
+		if maxx {
+			smax = "(" + smax
+		}
+		filter = []string{"WHERE", "f", smin, smax}
+		lo, hi := field.ValueOf(a), field.ValueOf(b)
+		want = func(v field.Value) bool {
+			okLo := !vhSpecLessV(v, lo)
+			if minx {
+				okLo = vhSpecLessV(lo, v)
+			}
+			okHi := !vhSpecLessV(hi, v)
+			if maxx {
+				okHi = vhSpecLessV(v, hi)
+			}
+			return okLo && okHi
+		}
+	case 1: // WHERE f op operand
+		op := vchoose(6)
+		filter = []string{"WHERE", "f", [6]string{"<", "<=", ">", ">=", "==", "!="}[op], a}
+		x := field.ValueOf(a)
+		want = func(v field.Value) bool {
+			switch op {
+			case 0:
+				return vhSpecLessV(v, x)
+			case 1:
+				return !vhSpecLessV(x, v)
+			case 2:
+				return vhSpecLessV(x, v)
+			case 3:
+				return !vhSpecLessV(v, x)
+			case 4:
+				return vhSpecEq(v, x)
+			}
+			return !vhSpecEq(v, x)
+		}
+	default: // WHEREIN f 2 a b
+		filter = []string{"WHEREIN", "f", "2", a, b}
+		x, y := field.ValueOf(a), field.ValueOf(b)
+		want = func(v field.Value) bool { return vhSpecEq(v, x) || vhSpecEq(v, y) }
+	}
+	var args []string
+	switch q {
+	case 0:
+		args = append([]string{"SCAN", "k"}, filter...)
+		args = append(args, "LIMIT", "100", "IDS")
+	case 1:
+		args = append([]string{"SEARCH", "k"}, filter...)
+		args = append(args, "LIMIT", "100", "IDS")
+	default:
+		args = append([]string{"WITHIN", "k"}, filter...)
+		args = append(args, "LIMIT", "100", "IDS", "BOUNDS", "-1", "-1", "50", "50")
+	}
+	r, _, err := vhDo(s, args...)
+	if err != nil {
+		vreach("where-rejected")
+		return
+	}
+	_, got := vhIDsOf(r)
+	n := 0
+	for _, o := range vhWhereObjs {
+		w := want(vhWhereValue(o[1]))
+		found := false
+		for _, id := range got {
+			if id == o[0] {
+				found = true
+			}
+		}
+		if w {
+			n++
+		}
+		vassert("C12.K2.where_keeps_exactly_the_satisfying_objects", found == w)
+	}
+	vassert("C12.K2.where_no_extra_ids", len(got) == n)
+	vobs("where", q, form, a, b, n)
 }
